@@ -274,8 +274,8 @@ class Model:
 def run(case):
     n = case['n']
     violations = []
-    with warnings.catch_warnings():
-        warnings.simplefilter('ignore')
+    with warnings.catch_warnings(record=True):
+        warnings.simplefilter('always')    # recorded, not printed; never 'ignore': dependencies inspect warnings
         saved = psutil.virtual_memory
         psutil.virtual_memory = _fake_virtual_memory
         Mem.available = 48 * GiB
